@@ -322,6 +322,14 @@ pub fn spec(cid: Cid) -> Spec {
             }
             v
         }
+        Cid::X2 => [(b'A', 0u8, b'T'), (b'T', 1, b'A'), (b'C', 2, b'G'), (b'G', 3, b'C')]
+            .iter()
+            .map(|&(ch, code, comp)| Sym { ch, inputs: vec![ch], code, alts: vec![], set: None, masked: false, comp: Some(comp) })
+            .collect(),
+        Cid::X3 => [(b'P', 0u8, vec![7u8], b's'), (b'Q', 1, vec![], b'T'), (b'R', 2, vec![5], b'R'), (b's', 4, vec![], b'P'), (b'T', 3, vec![], b'Q')]
+            .iter()
+            .map(|(ch, code, alts, comp)| Sym { ch: *ch, inputs: vec![*ch], code: *code, alts: alts.clone(), set: None, masked: false, comp: Some(*comp) })
+            .collect(),
         Cid::Degen => vec![
             Sym {
                 ch: b'S',
@@ -350,7 +358,7 @@ pub fn spec(cid: Cid) -> Spec {
 /// (empty when the oracle is self-consistent).
 pub fn self_test() -> Vec<String> {
     let mut errs = Vec::new();
-    for cid in Cid::ALL {
+    for cid in Cid::WITH_CUSTOM {
         let sp = spec(cid);
         let mut seen_code = std::collections::HashMap::new();
         let mut seen_in = std::collections::HashMap::new();
